@@ -57,6 +57,8 @@ class Unit(UnitBase):
             return 'angle'
         if self.dims == (0, 0):
             return 'dimensionless'
+        if self.dims == (2, 0):
+            return 'solid angle'
         return 'unknown'
 
     def __repr__(self):
@@ -148,6 +150,8 @@ arcsecond = arcsec
 hourangle = Unit('hourangle', 1 / 12, (1, 0), 1)
 hour = Unit('h', 3600, (0, 0, 1))
 pix = Unit('pix', 1, (0, 1))
+sr = Unit('sr', 1, (2, 0))
+steradian = sr
 pixel = pix
 mas = Unit('mas', 1 / 648000000, (1, 0), 1)
 m = Unit('m', 1, (0, 0, 0, 1))
@@ -156,7 +160,7 @@ km = Unit('km', 1000, (0, 0, 0, 1))
 s = Unit('s', 1, (0, 0, 1))
 
 _UNITS = {'rad': rad, 'radian': rad, 'deg': deg, 'degree': deg, 'arcmin': arcmin, 'arcsec': arcsec, 'pix': pix,
-          'pixel': pix, '': dimensionless_unscaled, 'hourangle': hourangle, 'mas': mas, 'GHz': GHz, 'km': km, 's': s, 'm': m}
+          'pixel': pix, 'sr': sr, 'steradian': sr, '': dimensionless_unscaled, 'hourangle': hourangle, 'mas': mas, 'GHz': GHz, 'km': km, 's': s, 'm': m}
 
 
 def _lookup(name):
